@@ -17,10 +17,10 @@ func init() {
 	})
 	defProp(&Prop{ID: "C02", Title: "Append-only log",
 		Explanation: stance + "Decided clauses: every successful write command is appended to the AOF after (and only after) its handler succeeded, with the bytes received, under the request's database, never during replay (D2); mutating handlers are write-classified, otherwise they are never logged (T2); under 'always' the writer fsyncs before it reports success and a database switch is logged before the command (D3); restore applies the preamble before the log and replays each command into the database of the last SELECT marker (D7).",
-		Decides:     []string{"D2 log-after-success in the dispatcher", "D3 sync-before-ack and SELECT marker in log.Store.Write", "D7 restore order and replay database", "T2 mutating handlers are write-classified"},
+		Decides:     []string{"D2 log-after-success in the dispatcher", "D3 sync-before-ack and SELECT marker in log.Store.Write", "D7 restore order and replay database", "T2 mutating handlers are write-classified", "R2 the log's own SELECT marker is well-formed RESP for every database index", "L1 the log handle is used only under the store mutex"},
 		NotCovered:  []string{"that replaying the logged commands reproduces the dataset (value semantics of each handler)", "torn final record tolerance (behaviour of tidwall/resp on given bytes)", "everysec/no timing"},
 		Assumptions: []string{"os.File.Sync is durable; os.O_APPEND appends atomically"},
-		Rules:       []RuleRef{{ID: "D2"}, {ID: "D3"}, {ID: "D7"}, {ID: "T2"}},
+		Rules:       []RuleRef{{ID: "D2"}, {ID: "D3"}, {ID: "D7"}, {ID: "T2"}, {ID: "R2", Scope: []string{"internal/aof"}, Floor: 2}, {ID: "L1", Scope: []string{"log.Store"}, Floor: 2}},
 	})
 	defProp(&Prop{ID: "C03", Title: "Snapshot round trip",
 		Explanation: stance + "Decided clauses: (1) every concrete type handlers store as a value is reproduced with the same dynamic type by the snapshot codec (E8); (2) the restore callbacks store data.Value and data.ExpireAt for the same key and database, the state callbacks copy every database and key (RC); (3) the expired-key filter removes exactly entries whose non-zero deadline is before now (X3 on FilterExpiredKeys); (4) the automatic trigger fires when the change count is at or above the threshold and not below (TR); (5) LASTSAVE is published only after the snapshot is durable and named in the manifest (D6 d); (6) the state copy runs under the store lock (L1 on getState).",
@@ -46,10 +46,10 @@ func init() {
 		Tech:        "static analysis: interprocedural must-lockset over SSA CFGs with wrapper summaries, caller-chain requirement propagation (VTA), gate-aware lock-order graph, store-reference taint",
 	})
 	defProp(&Prop{ID: "C06", Title: "ACL authorization",
-		Explanation: stance + "Decided clauses: every effectful step of the TCP dispatcher (handler invocation, raft apply, forwarding, AOF append, mutation flag) is dominated by a successful AuthorizeConnection or by a bypass edge for non-TCP callers, and the gate sees the very command, sub-command and tokens that are executed (D1).",
-		Decides:     []string{"D1 authorization gate dominates every sink of the dispatcher; gate inputs are the request's"},
-		NotCovered:  []string{"glob matching semantics, category arithmetic, polarity of individual tests, rule normalisation (value-level)"},
-		Rules:       []RuleRef{{ID: "D1"}},
+		Explanation: stance + "Decided clauses: every effectful step of the TCP dispatcher (handler invocation, raft apply, forwarding, AOF append, mutation flag) is dominated by a successful AuthorizeConnection or by a bypass edge for non-TCP callers, and the gate sees the very command, sub-command and tokens that are executed (D1); only the handshake commands are exempt before the authentication test (T4); the decision uses the key-extraction result of the command or sub-command being run (SK), checks channels, read keys and write keys one by one (Q) and consults every rule field of the user (FE); the keys the decision sees are the keys the handler passes to the keyspace, for every table entry and accessor call site (K1, T6).",
+		Decides:     []string{"D1 authorization gate dominates every sink of the dispatcher; gate inputs are the request's", "T4 exemptions within the handshake commands", "SK every key-extraction result feeds the resource checks", "Q every resource collection can cause a per-element denial", "FE every rule field of the user is enforced", "K1+T6 the keys the decision sees are the keys the handler touches (all table entries, all accessor call sites)"},
+		NotCovered:  []string{"glob matching semantics, category arithmetic, polarity of individual tests, rule normalisation (value-level)", "that a denied command has no effect on ACL/connection state beyond the dispatcher's sinks"},
+		Rules:       []RuleRef{{ID: "D1"}, {ID: "T4"}, {ID: "SK"}, {ID: "Q"}, {ID: "FE"}, {ID: "K1"}, {ID: "T6"}},
 	})
 	defProp(&Prop{ID: "C07", Title: "Replication",
 		Explanation: stance + "Decided clauses: only the dispatcher and the raft FSM invoke command handlers; in a cluster a synced command is never applied locally, raft apply happens only on the leader, forwarding only when enabled, otherwise the client gets an error (D4); every handler that can mutate the keyspace is Sync, i.e. replicated (T2).",
@@ -69,7 +69,7 @@ func init() {
 		Decides:     []string{"D5 rewrite order and critical section", "D7 restore order", "D8 start/finish pairing", "E8 preamble codec table", "L1 the AOF / preamble handles are used only under their store mutex", "RC preamble restore/state callbacks"},
 		NotCovered:  []string{"equality of restored datasets; interleavings beyond lock coverage"},
 		Rules: []RuleRef{{ID: "D5"}, {ID: "D7"}, {ID: "D8", Scope: []string{"internal/aof.", "getState", "handleCommand"}, Floor: 3}, {ID: "E8"},
-			{ID: "L1", Scope: []string{"internal/aof", "preamble.Store", "log.Store"}, Floor: 4}, {ID: "RC", Scope: []string{"|set-key-data", "|get-state"}, Floor: 4}},
+			{ID: "L1", Scope: []string{"internal/aof", "preamble.Store", "log.Store"}, Floor: 4}, {ID: "RC", Scope: []string{"|set-key-data", "|get-state"}, Floor: 4}, {ID: "R2", Scope: []string{"internal/aof"}, Floor: 2}},
 	})
 	defProp(&Prop{ID: "C10", Title: "Snapshots are crash-atomic",
 		Explanation: stance + "Decided by a typestate over the file operations of TakeSnapshot: the manifest at its final path is replaced only after the new state file was written and fsynced successfully, by an atomic rename of a temporary that was written, fsynced and closed; no failure / nothing-new return is preceded by a manifest replacement or a last-save update; LASTSAVE is published only after the manifest is in place; writer and reader build the same paths (D6); the snapshot-in-progress indication is cleared on every exit (D8).",
@@ -79,13 +79,16 @@ func init() {
 		Rules:       []RuleRef{{ID: "D6"}, {ID: "D8", Scope: []string{"internal/snapshot."}, Floor: 1}},
 	})
 	defProp(&Prop{ID: "C11", Title: "Authentication and user lifecycle",
-		Explanation: stance,
+		Explanation: stance + "Decided clauses: a failed authentication attempt never updates the connection table, and every update is followed only by the success return (U1); Enabled, NoPassword, the user name and the password type/value each control the outcome (U2); every field of User/Password is exported with json and yaml tags and Merge/Replace carry every rule field over, so SAVE/LOAD reproduce users (U3); the default user cannot be removed (U4); a new connection is bound to the default user and authenticated exactly when that user needs no password (U5); the user-lifecycle commands do not crash on short or empty arguments (AR over the acl package).",
+		Decides:     []string{"U1 failed AUTH changes nothing", "U2 credential fields enforced", "U3 persistence coverage", "U4 default user undeletable", "U5 connection registration", "AR constant index safety of the acl package"},
+		NotCovered:  []string{"password comparison values, rule-string grammar (\"+@all\" stores the category 'all' rather than the wildcard: value-level)", "effect of edits on later decisions over histories", "connection termination timing"},
+		Rules:       []RuleRef{{ID: "U1"}, {ID: "U2"}, {ID: "U3"}, {ID: "U4"}, {ID: "U5"}, {ID: "AR", Scope: []string{"internal/modules/acl."}, Floor: 35}, {ID: "L1", Scope: []string{"acl.ACL."}, Floor: 5}},
 	})
 	defProp(&Prop{ID: "C12", Title: "Wire protocol",
-		Explanation: stance + "Decided clause: the handler the dispatcher invokes is non-nil for every registered command (no nil-func crash on a bare parent command) (T1).",
-		Decides:     []string{"T1 complete dispatch", "AR constant index safety over all handlers, key functions and their helpers (338 sites)"},
+		Explanation: stance + "Decided clauses: the handler the dispatcher invokes is non-nil for every registered command (T1); constant indices into the command are inside every possible length (AR); every reply returned with a nil error ends in CRLF on every path, bulk headers are len() of their payload and no client-controlled string is written inside a simple string or error frame (R1-R3); a panic in a handler is recovered on the connection goroutine and in the raft FSM (W5); after a command was handled the connection loop writes a reply or error line before reading the next message (CL).",
+		Decides:     []string{"T1 complete dispatch", "AR constant index safety over all handlers, key functions and their helpers", "R1 every successful reply ends in CRLF on every path", "R2 bulk headers carry len() of their payload", "R3 no client data inside simple strings / errors", "W5 handler panics are contained on the connection goroutine and in the raft FSM", "CL every handled command is answered before the next read"},
 		NotCovered:  []string{"framing of pipelined or split input (byte-stream behaviour)", "data-dependent indices", "array-header/element-count agreement", "agreement of the embedded API's parser with the reply"},
-		Rules:       []RuleRef{{ID: "T0"}, {ID: "T1"}, {ID: "AR"}},
+		Rules:       []RuleRef{{ID: "T0"}, {ID: "T1"}, {ID: "AR"}, {ID: "R1"}, {ID: "R2"}, {ID: "R3"}, {ID: "W5"}, {ID: "CL"}},
 	})
 	defProp(&Prop{ID: "C13", Title: "Read-only commands are pure",
 		Explanation: stance + "Decided: no handler of a read-only command writes through any reference it obtained from the store, on any call path (values are handed out by reference, so this is the mechanism by which a read could change what later commands observe) (P1); a value stored by SetValues is never a store-derived reference read under another key that stays in place, so a STORE destination never shares structure with a source (P2).",
@@ -120,6 +123,7 @@ func init() {
 		Rules: []RuleRef{
 			{ID: "WT", Scope: []string{"internal/modules/set."}, Floor: 15},
 			{ID: "AR", Scope: []string{"internal/modules/set."}, Floor: 25},
+			{ID: "R1", Scope: []string{"internal/modules/set."}, Floor: 22},
 		},
 	})
 	defProp(&Prop{ID: "C17", Title: "Sorted-set commands",
@@ -131,7 +135,12 @@ func init() {
 			{ID: "AR", Scope: []string{"internal/modules/sorted_set."}, Floor: 80},
 		},
 	})
-	defProp(&Prop{ID: "C18", Title: "Pub/Sub", Explanation: stance})
+	defProp(&Prop{ID: "C18", Title: "Pub/Sub",
+		Explanation: stance + "Decided clauses: between taking a message from a channel's queue and writing it to a subscriber's socket no goroutine is started, so messages of one channel reach a subscriber in queue order (S1); the channel table and the subscriber tables are accessed only under their locks (L1); the replies of UNSUBSCRIBE / PUBSUB CHANNELS / NUMSUB are CRLF-terminated with correct bulk headers (R1, R2).",
+		Decides:     []string{"S1 delivery by the dequeuing goroutine", "L1 pub/sub tables under their locks", "R1/R2 reply framing of the pubsub package"},
+		NotCovered:  []string{"exactly-once delivery, 'subscribed at the time of publish' (delivery is asynchronous by design)", "running counts in confirmations (UNSUBSCRIBE iterates a Go map: order and indices are value-level)"},
+		Rules:       []RuleRef{{ID: "S1"}, {ID: "L1", Scope: []string{"pubsub."}, Floor: 8}, {ID: "R1", Scope: []string{"internal/modules/pubsub."}, Floor: 5}, {ID: "R2", Scope: []string{"internal/modules/pubsub."}, Floor: 3}},
+	})
 	defProp(&Prop{ID: "C19", Title: "Reported memory usage",
 		Explanation: stance + "Decided clauses: the memory counter is written only by the functions that add/replace/remove/clear store entries (M1); each such function pairs the store mutation with the matching adjustment: += new size and -= replaced size on writes, -= on removal, -= all on clear (M2); handlers that grow or shrink a stored object in place, which the counter cannot follow, are inventoried (P3).",
 		Decides:     []string{"M1 accounting ownership", "M2 accounting pairing", "P3 in-place mutators (reported per handler)"},
@@ -143,7 +152,7 @@ func init() {
 		Decides:     []string{"N1 context must-keys", "N2 per-database indexing", "N3 + D2(e) database identity across AOF / raft", "D3 SELECT marker", "PD per-database structures"},
 		NotCovered:  []string{"FLUSHDB vs FLUSHALL argument choice, SWAPDB semantics (value-level)", "behaviour across restarts"},
 		Rules: []RuleRef{{ID: "N1"}, {ID: "N2"}, {ID: "N3"}, {ID: "D2", Scope: []string{"|e:log-database"}, Floor: 1},
-			{ID: "D3", Scope: []string{"select-marker", "current-database"}, Floor: 2}, {ID: "D7", Scope: []string{"replay-database"}, Floor: 1}, {ID: "PD", Not: []string{"heap-emptied"}, Floor: 12}},
+			{ID: "D3", Scope: []string{"select-marker", "current-database"}, Floor: 2}, {ID: "D7", Scope: []string{"replay-database"}, Floor: 1}, {ID: "PD", Not: []string{"heap-emptied"}, Floor: 12}, {ID: "R2", Scope: []string{"internal/aof"}, Floor: 2}},
 	})
 }
 
